@@ -53,7 +53,7 @@ impl Rep {
         *self.evals.entry(prop.to_string()).or_default() += 1;
         self.ord += 1;
         if nontrivial {
-            let h = nvcore::rng::derive(self.case_seed, &[self.op_index, self.ord, nvcore::rng::tag(prop)]);
+            let h = crate::rng::derive(self.case_seed, &[self.op_index, self.ord, crate::rng::tag(prop)]);
             self.nontrivial.entry(prop.to_string()).or_default().insert(h);
         }
     }
